@@ -223,6 +223,25 @@ def rule_sizes(chk: Check, model, rid: str):
         ok = ok and not others
     chk.add(rid, "minimum sizes aggregate over every reader of a producer", bool(ok), "get_buffer_sizes must append each (consumer, input) requirement s.max() + 1 to the "
             "producer's list (the allocated size is the max over all of them); a replaced entry forgets the other consumers", chk.loc(f_bs))
+    # the spread a ring must cover: newest sequence number written so far minus the oldest one any scheduled window still names -
+    # the oldest over all slots of the generation *and all window entries* (axes 2 and 4 of the whole windows array; a single
+    # window entry, e.g. the newest, ignores the older entries and the extension for trainable delays)
+    mins = [e for e in rbs.events if e.kind == "call" and e.name in ("numpy.amin", "numpy.min") and e.args]
+    maxs = [e for e in rbs.events if e.kind == "call" and e.name in ("numpy.amax", "numpy.max") and e.args]
+
+    def _axes(e):
+        ax = dict(e.kwargs).get("axis", e.args[1] if len(e.args) > 1 else T.NONE)
+        vals = ax[1] if ax[0] == "tuple" else (ax,)
+        cs = [T.const_value(v) for v in vals]
+        return None if any(c is None for c in cs) else {int(c) for c in cs}
+    oks = len(mins) == 1 and len(maxs) == 1
+    if oks:
+        a_in, a_out = mins[0].args[0], maxs[0].args[0]
+        oks = a_in[0] == "attr" and a_in[2] == "seq" and a_in[1][0] == "index" and a_in[1][1][0] == "attr" and a_in[1][1][2] == "windows" and _axes(mins[0]) == {2, 4} \
+            and a_out[0] == "attr" and a_out[2] == "seq" and a_out[1][0] == "index" and _axes(maxs[0]) == {2}
+    chk.add(rid, "ring spread: oldest window entry over all slots and the whole window vs newest output over all slots", bool(oks),
+            f"oldest needed = {T.show(mins[0].term)[-120:] if mins else None}, newest written = {T.show(maxs[0].term)[-100:] if maxs else None}; expected amin(windows[input].seq, axis=(2, 4)) "
+            "and amax(<producer timings>.seq, axis=2)", chk.loc(f_bs, mins[0].node if mins else None))
     # which schedule entries count for the ring size: exactly the slots that run (entries of masked slots are ignored); window entries
     # without a message (seq < 0) do count: they address the last ring slot, which must still hold the default output
     f_mt = model.func("base.Timings.get_masked_timings")
